@@ -268,7 +268,7 @@ def run_case(case, ctx):
 	if kind == 'too_long':
 		x = case['kmer'].encode('ascii')
 		_expect_reject(x, gk, 'longer than 32')
-		return {'nontrivial': True, 'classes': ['len>32']}
+		return {'nontrivial': True, 'classes': ['len>32'], 'expects_rejection': True}
 	raise ValueError(kind)
 
 
